@@ -719,6 +719,16 @@ theorem world_tx_deleverage_cannot_worsen_health {w w' : WState} {tx : List TOp}
   subst ecache
   exact ⟨a, ps0, m0, ha, hadm, hgrp, hps0, hm0, signer, rok, hlast, hsig, wl, al, psl, ml, hal, hpsl, hml, hworse⟩
 
+/-- **world_txs_control_never_survives**: from a state in which no account is in receivership and no liquidation record names a
+    receiver, after ANY sequence of transactions of the world machine — committed or rolled back; brackets of both kinds, flash
+    loans, user instructions, transfers — no account is in receivership and no record names a receiver: neither the marker nor
+    the control it stands for survives a transaction. (Invariant: a receiver is recorded only while the account is in receivership;
+    starts set both, ends clear both, nothing else touches either.) -/
+theorem world_txs_control_never_survives (txs : List (List TOp)) (w : WState)
+    (h0 : ∀ (k : Nat) (a : AcctV), w.accts[k]? = some a → inRecv a = false ∧ a.recReceiver = 0) :
+    ∀ (k : Nat) (a : AcctV), (w.runTxs txs).accts[k]? = some a → inRecv a = false ∧ a.recReceiver = 0 :=
+  runTxs_no_control txs w h0
+
 /-- a small world: one account without positions, no banks; 3 is the risk admin -/
 def demoWorld : WState :=
   { now := 100,
